@@ -184,7 +184,7 @@ func draw(run *core.Run) *workload {
 	if t.Bool(1, 3) {
 		n := 1 + t.Draw(2)
 		for i := 0; i < n; i++ {
-			p := gen.Pool[t.Draw(len(gen.Pool)-1)]
+			p := gen.Pool[t.Draw(gen.NumPlain)]
 			w.alias[p.Path] = []string{"", "ali", "x", "_", "q1"}[t.Draw(5)]
 		}
 	}
